@@ -238,6 +238,21 @@ func c15Kill(c *core.C, idx int) {
 			if len(observed) > 1 {
 				c.Count("reader_saw_version_change", 1)
 			}
+			// the history continues after the crash: a later atomic put of a SHORTER object to the same
+			// path must publish exactly that object (nothing of the interrupted write may survive in it)
+			{
+				next := c15Content(99, size/2)
+				perr := storage.PutPath(ctx, reader, path, next, storage.PutWithAtomic())
+				data, rerr := os.ReadFile(full)
+				c.Eval(1)
+				c.Count("post_kill_followup_puts", 1)
+				if perr != nil {
+					c.Violation("put-after-crash-failed", key, fmt.Sprintf("an atomic put after the crash failed: %v", perr), nil)
+				} else if rerr != nil || !bytes.Equal(data, next) {
+					v2, b2 := c15Validate(data)
+					c.Violation("put-after-crash-corrupt", key, fmt.Sprintf("after SIGKILL at %s:%d a later atomic put of %d bytes returned nil but the object holds %d bytes (version %d, %s)", point, k, len(next), len(data), v2, b2), nil)
+				}
+			}
 			entries, _ := os.ReadDir(filepath.Join(dir, "sub"))
 			for _, e := range entries {
 				if strings.HasPrefix(e.Name(), ".tmp") {
